@@ -825,9 +825,131 @@ static void level_b(void)
 	}
 }
 
+/* ---------- scale: long scripted churn on one object (several table growths, many tombstones) ---------- */
+#define SCK 1200
+static char sck[SCK][12];
+static int sc_order[SCK], sc_n, sc_val[SCK]; /* model: insertion order of live key indices; value per key (or -1) */
+static int in_scale;
+static char scaledesc[96];
+static int sc_find(int k)
+{
+	for (int i = 0; i < sc_n; i++)
+		if (sc_order[i] == k)
+			return i;
+	return -1;
+}
+static int sc_check(struct json_object *o, const char *what)
+{
+	if (json_object_object_length(o) != sc_n)
+	{
+		mc_violation("scale:length-differs-from-model", "%s: length %d, model %d", what, json_object_object_length(o), sc_n);
+		return 0;
+	}
+	int i = 0;
+	json_object_object_foreach(o, key, val)
+	{
+		if (i >= sc_n || strcmp(key, sck[sc_order[i]]) || json_object_get_int(val) != sc_val[sc_order[i]])
+		{
+			mc_violation("scale:iteration-differs-from-model", "%s: position %d is %s=%d, model %s=%d", what, i, key, json_object_get_int(val), i < sc_n ? sck[sc_order[i]] : "(end)",
+			             i < sc_n ? sc_val[sc_order[i]] : -1);
+			return 0;
+		}
+		i++;
+	}
+	if (i != sc_n)
+	{
+		mc_violation("scale:iteration-differs-from-model", "%s: iteration delivered %d members, model %d", what, i, sc_n);
+		return 0;
+	}
+	for (int k = 0; k < SCK; k += 1)
+	{
+		struct json_object *v = NULL;
+		int found = json_object_object_get_ex(o, sck[k], &v);
+		int mi = sc_val[k] >= 0;
+		if (!!found != mi || (found && json_object_get_int(v) != sc_val[k]))
+		{
+			mc_violation(found ? "scale:lookup-wrong" : "scale:lookup-misses-live-key", "%s: get_ex(%s) %s (value %d), model %s (value %d)", what, sck[k], found ? "found" : "not found",
+			             found ? json_object_get_int(v) : -1, mi ? "present" : "absent", sc_val[k]);
+			return 0;
+		}
+	}
+	return 1;
+}
+static void level_scale(void)
+{
+	in_scale = 1;
+	for (int i = 0; i < SCK; i++)
+		snprintf(sck[i], sizeof sck[i], "key%d", i);
+	for (int hashfn = 0; hashfn < 2; hashfn++)
+		for (int script = 0; script < 3; script++)
+		{
+			snprintf(scaledesc, sizeof scaledesc, "level=scale hashfn=%d script=%d", hashfn, script);
+			if (!mc_case_begin())
+				continue;
+			json_global_set_string_hash(hashfn ? JSON_C_STR_HASH_PERLLIKE : JSON_C_STR_HASH_DFLT);
+			struct json_object *o = json_object_new_object();
+			sc_n = 0;
+			for (int k = 0; k < SCK; k++)
+				sc_val[k] = -1;
+			int ok = 1, serial = 1;
+			int n1 = script == 0 ? 100 : script == 1 ? 400 : 1100;
+			for (int k = 0; k < n1 && ok; k++)
+			{
+				json_object_object_add(o, sck[k], json_object_new_int(serial));
+				sc_val[k] = serial++;
+				sc_order[sc_n++] = k;
+				if (k == 10 || k == 11 || k == 21 || k == 22 || k == 42 || k == 43 || k == 84 || k == 85 || k == 169 || k == 170 || k == 338 || k == 339 || k == 675 || k == 677 || k == n1 - 1)
+					ok = sc_check(o, "while filling");
+			}
+			/* churn: delete 3 of every 4, re-add half of those (they move to the end), replace the survivors */
+			for (int round = 0; round < 4 && ok; round++)
+			{
+				for (int k = round; k < n1; k++)
+					if (k % 4 != 3 && sc_val[k] >= 0 && (k + round) % 2 == 0)
+					{
+						json_object_object_del(o, sck[k]);
+						int at = sc_find(k);
+						memmove(&sc_order[at], &sc_order[at + 1], (size_t)(sc_n - at - 1) * sizeof(int));
+						sc_n--;
+						sc_val[k] = -1;
+					}
+				ok = sc_check(o, "after a round of deletions");
+				for (int k = 0; k < n1 && ok; k += 3)
+				{
+					int opts = (k % 2) ? JSON_C_OBJECT_ADD_CONSTANT_KEY : 0;
+					if (sc_val[k] < 0)
+					{
+						json_object_object_add_ex(o, sck[k], json_object_new_int(serial), (unsigned)opts | JSON_C_OBJECT_ADD_KEY_IS_NEW);
+						sc_order[sc_n++] = k;
+					}
+					else
+						json_object_object_add_ex(o, sck[k], json_object_new_int(serial), (unsigned)opts);
+					sc_val[k] = serial++;
+				}
+				ok = ok && sc_check(o, "after re-adding and replacing");
+			}
+			MC_COUNT("calls", 6 * n1);
+			json_object_put(o);
+			if (vf_live())
+			{
+				mc_violation("leak", "%ld blocks live after the scale script", vf_live());
+				mc_restart_worker();
+			}
+			mc_nontrivial(mc_hash_str(scaledesc));
+			mc_sample_current();
+		}
+	json_global_set_string_hash(JSON_C_STR_HASH_DFLT);
+	in_scale = 0;
+}
+
 static int level;
 static void describe(sb_t *o)
 {
+	if (in_scale)
+	{
+		sb_puts(o, scaledesc);
+		return;
+	}
 	sb_printf(o, "%s ", cfgdesc);
 	bfs_describe(level ? &bcb : &acb, o);
 }
@@ -837,11 +959,19 @@ static void enumerate(void)
 	if (level)
 		level_b();
 	else
+	{
 		level_a();
+		level_scale();
+	}
 }
 static int replay(const char *desc)
 {
 	level = !strcmp(mc_opt("level", "a"), "b");
+	if (strstr(desc, "level=scale"))
+	{
+		level_scale();
+		return (int)mc_violations();
+	}
 	if (!level)
 	{
 		long k = 3, sz = 1;
